@@ -31,7 +31,7 @@ LEVEL = "exploration"
 RULE = ("seeded scenarios: master + 1..4 joiners (quick) / up to 12 with level-1 slots exhausted so that joins go through relays "
         "(thorough), in a third of the small runs a master table pre-filled with static leases that leave one free slot per level along a seeded chain (joins down to level 4, full parents), distinct random IDs 1..255, start offsets 0..300 ms, per-node MCU jitter; per joiner renew_address() then a "
         "seeded sequence of lookup_address / lookup_node_id (known, unknown, 0, None), send(to id), check_connection(both modes), "
-        "release_address, re-join; 20 % of runs inject packet/ACK loss and enforce only the `safe` clause. Non-trivial: at least "
+        "release_address, re-join; a fifth of the small runs are the serialised families "orphan" (a node's relay releases its address, the node joins again) and "master_down" (the master's MCU stops, lookups behind a still-acknowledging first hop must give -1); 20 % of runs inject packet/ACK loss and enforce only the `safe` clause. Non-trivial: at least "
         "two nodes joined or a join went through a relay; distinct = distinct abstract event sequences")
 ASSUMPTIONS = ["loss-free claims: collisions arise only from the schedule the library itself produces (M10)",
                "lookup answers are compared with every table version in force between call and return",
@@ -41,7 +41,7 @@ CLAUSES = {"join": "valid distinct address recorded under its ID within the time
            "lookup": "master's current mapping, trivial answers, -2 / -1 codes", "undisturbed": "asking never disturbs the master",
            "release": "back to the unassigned address, lease freed", "connected": "check_connection() True exactly for connected nodes",
            "safe": "with loss: no exception, termination, valid-or-None"}
-PROBES = ["collision", "serialised_call_checked", "join_via_relay", "join_at_level_4"]
+PROBES = ["collision", "serialised_call_checked", "join_via_relay", "join_at_level_4", "master_mcu_stopped", "orphan_rejoined"]
 SHRINK_KEYS = ("joiners", "faults")
 CHUNK = 2
 MAX_INCONCLUSIVE = 0.03
@@ -126,7 +126,40 @@ def make(i, base_seed, tier):
             for op in j["ops"]:
                 if op["op"] == "renew":
                     op["timeout"] = 10.0
-    return {"seed": seed, "serial": serial, "prefill": {str(k): v for k, v in prefill.items()}, "joiners": joiners, "lossy": lossy, "faults": faults, "master_knobs": dict(knobs(), stall_prob=0.0), "big": big}
+    scn = {"seed": seed, "serial": serial, "prefill": {str(k): v for k, v in prefill.items()}, "joiners": joiners, "lossy": lossy, "faults": faults, "master_knobs": dict(knobs(), stall_prob=0.0), "big": big}
+    xr = stream(seed, "ext")
+    fam = xr.random()
+    if not big and fam < 0.2:
+        # two targeted serialised families on a loss-free medium: level 1 has one free slot, node A takes it, node B has to join
+        # below A.  (orphan) A then releases its address and B - whose relay is gone - joins again;  (master_down) the master's
+        # MCU stops and B, whose first hop A still acknowledges, looks things up: the documented answer is -1
+        ida, idb = xr.sample(range(1, 256), 2)
+        fake = [x for x in range(1, 256) if x not in (ida, idb)]
+        xr.shuffle(fake)
+        d0 = xr.randint(1, 5)
+        pf = {fake.pop(): a for a in range(1, 6) if a != d0}
+        ka, kb = knobs(), knobs()
+        ja = {"id": ida, "cls": "mesh", "offset_ms": 0, "knobs": ka, "ops": [{"op": "renew", "timeout": 10.0}]}
+        jb = {"id": idb, "cls": "mesh", "offset_ms": 0, "knobs": kb, "ops": [{"op": "renew", "timeout": 10.0}]}
+        scn.update(serial=True, lossy=False, faults=[], prefill={str(k): v for k, v in pf.items()}, joiners=[ja, jb])
+        if fam < 0.1:
+            scn["family"] = "orphan"
+            ja["ops"].append({"op": "release"})
+            jb["ops"].append({"op": "renew", "timeout": 10.0})
+            if xr.random() < 0.5:
+                ja["ops"].append({"op": "renew", "timeout": 10.0})
+                jb["ops"].append({"op": "lookup_address", "id": ida})
+        else:
+            scn["family"] = "master_down"
+            after = []
+            for _ in range(xr.randint(1, 3)):
+                who = xr.choice([idb, idb, ida])
+                if xr.random() < 0.5:
+                    after.append({"id": who, "op": {"op": "lookup_node_id", "of": xr.choice([ida, idb, "unknown"]), "master_down": True}})
+                else:
+                    after.append({"id": who, "op": {"op": "lookup_address", "id": xr.choice([ida, idb, 251]), "master_down": True}})
+            scn["after_master_down"] = after
+    return scn
 
 
 def run(scn):
@@ -214,6 +247,18 @@ def _run(scn, w, res):
             net.wait(c, timeout=120 * SEC, step=MS)
             net.wait_quiet(quiet=10 * MS, timeout=2 * SEC, step=MS)
             cmds.setdefault(nid, []).append((op, c))
+    if scn.get("serial") and scn.get("after_master_down"):
+        net.halt("M")          # the master's MCU stops; its radio stays as it is
+        sim.advance(5 * MS)
+        sim.count("master_mcu_stopped")
+        for item in scn["after_master_down"]:
+            if item["id"] not in net.nodes:
+                continue
+            j = next(x for x in scn["joiners"] if x["id"] == item["id"])
+            c = net.post(item["id"], item["op"]["op"], mk(j, item["op"]))
+            net.wait(c, timeout=120 * SEC, step=MS)
+            net.wait_quiet(quiet=10 * MS, timeout=2 * SEC, step=MS)
+            cmds.setdefault(item["id"], []).append((item["op"], c))
     for j in ([] if scn.get("serial") else scn["joiners"]):
         lst = []
         lst.append((None, net.hold(j["id"], j["offset_ms"] * MS)))
@@ -357,6 +402,8 @@ def _run(scn, w, res):
                     res.add("join", {"kind": "join_failed", "joiners": min(len(ids), 5)}, "renew_address(%.1f) on id %d returned None on a loss-free medium after %.2f s (%d joiners)" % (op["timeout"], nid, dur, len(ids)))
                     continue
                 joined += 1
+                if scn.get("family") == "orphan" and any(o2 is op for o2 in [x[0] for x in lst][1:]):
+                    sim.count("orphan_rejoined")
                 if netref.level(addr) > 1:
                     via_relay = True
                     sim.count("join_via_relay")
@@ -378,6 +425,10 @@ def _run(scn, w, res):
                     res.add("release", {"kind": "release_failed"}, "release_address() on connected id %d returned %r on a loss-free medium" % (nid, r))
             elif o == "lookup_address":
                 q = op["id"]
+                if op.get("master_down"):
+                    if connected and r != -1:
+                        res.add("lookup", {"kind": "answer_without_master"}, "lookup_address(%d) on id %d = %r although the master's MCU had stopped: documented -1 (no answer)" % (q, nid, r))
+                    continue
                 if not q:
                     if r != 0:
                         res.add("lookup", {"kind": "trivial_answer"}, "lookup_address(%r) = %r, documented 0" % (q, r))
@@ -395,6 +446,10 @@ def _run(scn, w, res):
             elif o == "lookup_node_id":
                 a, got = r
                 if got is None:
+                    continue
+                if op.get("master_down"):
+                    if connected and got != -1:
+                        res.add("lookup", {"kind": "answer_without_master"}, "lookup_node_id(%o) on id %d = %r although the master's MCU had stopped: documented -1 (no answer)" % (a, nid, got))
                     continue
                 if a is None:
                     if got != nid:
